@@ -589,7 +589,7 @@ def replay_file(pid, path):
     if not test_src:
         print("no playback test recorded in %s" % path)
         return 2
-    j = J.by_name(rec["harness"].split("::")[-1])
+    j = next(x for x in J.JOBS if x.path == rec["harness"])
     sc = S.Scratch()
     try:
         ok, rlog = native_replay(sc, j, test_src)
